@@ -79,11 +79,13 @@ class G:
                 if isint:
                     ins["params"][scalar_param] = {"$": "fn", "f": {"kind": "lin", "i": i, "a": a, "b": b}}
                 else:
-                    ins["params"][scalar_param] = {"$": "fn", "f": {"kind": "lin", "i": i, "a": _r(a * 0.1), "b": b}}
+                    # continuous outcomes (homodyne with z = 1e-4 returns values of order 1e2..1e4): a bounded map keeps
+                    # the parameter inside the range the numerics are meant for
+                    ins["params"][scalar_param] = {"$": "fn", "f": {"kind": "bounded", "i": i, "a": a, "b": b}}
         # sometimes a second outcome-dependent parameter on the same instruction (resolution is then a
         # multi-step operation that can fail half-way)
         if scalar_param and isinstance(ins["params"].get(scalar_param), dict) and rng.chance(0.4):
-            others = [k for k, v in ins["params"].items() if k != scalar_param and isinstance(v, (int, float)) and not isinstance(v, bool)]
+            others = [k for k, v in ins["params"].items() if k != scalar_param and k in ("phi", "ext") and isinstance(v, (int, float)) and not isinstance(v, bool)]
             if others:
                 k2 = rng.pick(others)
                 j = rng.randrange(self.n_outcomes)
@@ -91,7 +93,7 @@ class G:
                 if self.outcome_kinds[j] == "int":
                     ins["params"][k2] = {"$": "expr", "s": "%s * x[%d] + %s" % (a2, j, _r(rng.uniform(0.0, 0.2)))} if rng.chance(0.5) else {"$": "fn", "f": {"kind": "lin", "i": j, "a": a2, "b": 0.05}}
                 else:
-                    ins["params"][k2] = {"$": "fn", "f": {"kind": "lin", "i": j, "a": _r(a2 * 0.1), "b": 0.05}}
+                    ins["params"][k2] = {"$": "fn", "f": {"kind": "bounded", "i": j, "a": a2, "b": 0.05}}
         if rng.chance(0.4):
             if isint:
                 c = rng.randrange(0, max(1, self.outcome_max[i]) + 1)
@@ -108,7 +110,15 @@ class G:
                     ins["when"] = {"fn": {"kind": "gt", "i": i, "c": 0.0}}
         return ins
 
+    FIXED_ARITY = {"Phaseshifter": 1, "Fourier": 1, "Kerr": 1, "Squeezing": 1, "Displacement": 1, "PositionDisplacement": 1, "MomentumDisplacement": 1, "QuadraticPhase": 1, "CubicPhase": 1, "Loss": 1, "Attenuator": 1, "Beamsplitter": 2, "Beamsplitter5050": 2, "MachZehnder": 2, "CrossKerr": 2, "Squeezing2": 2, "ControlledX": 2, "ControlledZ": 2, "ControlledPhase": 2, "IsingXX": 2}
+
     def add(self, ins):
+        # a fixed-arity gate addressing exactly the still-active modes in increasing order may as well be
+        # registered without modes (pq.Q() / pq.Q(all)): valid, and it exercises the arity check against
+        # the modes that are *still active*, not against the width of the simulator
+        k = self.FIXED_ARITY.get(ins["type"])
+        if k is not None and ins.get("modes") is not None and len(self.active) == k and list(ins["modes"]) == sorted(self.active) and self.rng.chance(0.35):
+            ins = dict(ins, modes=None)
         self.prog.append(ins)
 
     def measured(self, modes, kind, maxv):
